@@ -88,7 +88,9 @@ func longRuns(c *corr.Ctx) {
 	type lr struct{ max, nt, n int }
 	runs := []lr{{77 + rg.IntN(3), 1, 1 + 69*(260+rg.IntN(300))}, {141 + rg.IntN(3), 2, 65536 + rg.IntN(3000)}}
 	if !c.Quick() {
-		runs = append(runs, lr{77, 1, 1 + 69*65540}, lr{1450, 2, 1<<24 - rg.IntN(2000)}, lr{1450, 1, 1 << 24}, lr{200, 2, 70000 + rg.IntN(70000)})
+		// the model's `retained` walks every buffered byte after every packet, so a compared case
+		// costs bytes x packets: 4 MiB at limit 1450 (offsets up to 2^22) is what fits the budget
+		runs = append(runs, lr{1450, 2, 1<<22 - rg.IntN(2000)}, lr{200, 2, 70000 + rg.IntN(70000)})
 	}
 	for i, r := range runs {
 		cu.RoundTrip(c, Mjpeg, params(r.max), func(*cu.Instance) []cu.Frame {
@@ -96,4 +98,92 @@ func longRuns(c *corr.Ctx) {
 		}, fmt.Sprintf("mjpeg-longrun-%d", i))
 		c.Flush()
 	}
+	// beyond what the Lean oracle can follow in the time budget, on the real code only (property
+	// oracle: C06 numbering / size / marker across the calls, C03 round trip): M-JPEG with more than
+	// 65536 packets in one call, M-JPEG scan data of 2^24 bytes and just below (fragment offsets up to
+	// the 24-bit limit), MPEG-TS groups of more than 65536 TS packets
+	if !c.Quick() {
+		longRunImplOnly(c, Mjpeg, params(77), []cu.Frame{img(1+69*65540, 1), img(50, 1), img(300*69, 1)}, "mjpeg-longrun-65540-packets")
+		longRunImplOnly(c, Mjpeg, params(1450), []cu.Frame{img(1<<24, 2), img(5000, 2), img(1<<24-rg.IntN(3000), 1)}, "mjpeg-longrun-2^24")
+		g := make(cu.Frame, 65537+rg.IntN(100))
+		one := tsPacket(rg)
+		for j := range g {
+			g[j] = one
+		}
+		longRunImplOnly(c, MpegTs, params(188+rg.IntN(188)), []cu.Frame{g, {tsPacket(rg)}, g[:300]}, "mpegts-longrun-65537-packets")
+	}
+}
+
+// longRunImplOnly runs consecutive frames through one real encoder / decoder pair and evaluates
+// the C06 and C03 clauses on the implementation's packets, without recording operation lines for
+// the model (cases whose operation lines would be tens of megabytes).
+func longRunImplOnly(c *corr.Ctx, s *cu.Spec, p cu.EncParams, frames []cu.Frame, name string) {
+	inst, err := s.New(c.Rng, p)
+	if err != nil {
+		return
+	}
+	viol := func(prop, clause, key, detail string) {
+		c.Violate(corr.Violation{Property: prop, Clause: clause, Key: s.Name + "-" + key, Where: "pkg/format/rtp" + s.Name,
+			Input: map[string]any{"mode": "longrun-impl-only", "codec": s.Name, "case": name, "params": p}, Detail: detail})
+	}
+	dec := inst.NewDec()
+	next := p.Seq0
+	for fi, f := range frames {
+		pkts, err := inst.Enc.Encode(f)
+		if err != nil {
+			viol("C03", "encoder accepts every valid frame", "enc-error", fmt.Sprintf("frame %d: %v", fi, err))
+			return
+		}
+		var got cu.Frame
+		for i, pk := range pkts {
+			last := i == len(pkts)-1
+			if len(pk.Payload) > p.Max {
+				viol("C06", "payload no larger than the configured maximum", "enc-size", fmt.Sprintf("frame %d packet %d: %d > %d", fi, i, len(pk.Payload), p.Max))
+			}
+			if pk.SequenceNumber != next {
+				viol("C06", "sequence numbers increase by exactly one modulo 2^16 from the initial value", "enc-seq",
+					fmt.Sprintf("frame %d packet %d of %d: seq %d, expected %d", fi, i, len(pkts), pk.SequenceNumber, next))
+			}
+			next = pk.SequenceNumber + 1
+			if pk.PayloadType != inst.PT || pk.SSRC != p.SSRC {
+				viol("C06", "configured (or format-mandated) payload type", "enc-pt", fmt.Sprintf("frame %d packet %d", fi, i))
+			}
+			if s.MarkerLast && pk.Marker != last {
+				viol("C06", "marker set on the packet that completes a frame", "enc-marker", fmt.Sprintf("frame %d packet %d of %d: marker %v", fi, i, len(pkts), pk.Marker))
+			}
+			out, derr := dec.Decode(pk)
+			switch {
+			case s.GroupSplit:
+				if derr != nil {
+					viol("C03", "decoding the encoder's packets returns the original frame", "roundtrip", fmt.Sprintf("frame %d packet %d: %v", fi, i, derr))
+				}
+				got = append(got, out...)
+			case last:
+				if derr != nil {
+					viol("C03", "decoding the encoder's packets returns the original frame", "roundtrip", fmt.Sprintf("frame %d: %v at the last packet", fi, derr))
+				}
+				got = out
+			default:
+				if derr == nil || s.Classify(derr) != "more" {
+					viol("C03", "'more packets needed' before the completing packet", "roundtrip-early", fmt.Sprintf("frame %d packet %d of %d: %v", fi, i, len(pkts), derr))
+				}
+			}
+		}
+		eq := false
+		if s.FrameEq != nil {
+			eq = got != nil && s.FrameEq(f, got)
+		} else if len(got) == len(f) {
+			eq = true
+			for i := range f {
+				if string(f[i]) != string(got[i]) {
+					eq = false
+				}
+			}
+		}
+		if !eq {
+			viol("C03", "decoding the encoder's packets returns the original frame", "roundtrip", fmt.Sprintf("frame %d of %s differs", fi, name))
+		}
+		c.Dist(fmt.Sprintf("%s.longrun-impl-only-pkts>=%d", s.Name, (len(pkts)/1000)*1000))
+	}
+	c.CountOnly(name, true)
 }
